@@ -46,7 +46,7 @@ func main() {
 			startWatchdog()
 		},
 		Families: func(tier string) []*core.Family {
-			sweepBudget, foreverBudget := 150, 40
+			sweepBudget, foreverBudget := 170, 40
 			if tier == "thorough" {
 				sweepBudget, foreverBudget = 950, 200
 			}
